@@ -693,6 +693,11 @@ func (p *Program) runScan(sc *Scan) *UnitResult {
 						addr = x.Addr
 					case *ssa.MapUpdate:
 						addr = x.Map
+					case *ssa.Call:
+						// delete(m, k) and clear(m) change the map (or slice) they are given
+						if bi, ok := x.Call.Value.(*ssa.Builtin); ok && (bi.Name() == "delete" || bi.Name() == "clear") && len(x.Call.Args) > 0 {
+							addr = x.Call.Args[0]
+						}
 					}
 					if addr == nil {
 						continue
